@@ -1931,6 +1931,8 @@ def render_item(unit, kind, opts, sections):
         ruled = None
         emitted = untok(item)
     else:
+        if opts.get("from"):
+            item = slice_fn(item, opts, fired)
         item = apply_rules(item, ["R12"] + rules, fired)
         if opts.get("params"):
             item = rename_params(item, [x for x in opts["params"].split(",")], fired)
@@ -1959,6 +1961,28 @@ def render_item(unit, kind, opts, sections):
         "contract": sections.get("contract", "").strip(),
         "has_requires": bool(re.search(r"\brequires\b", sections.get("contract", ""))),
     })
+
+
+def slice_fn(item, opts, fired):
+    """statement-range extraction:  from="<code>" to="<code>" header="fn name(params)"  builds a function whose body is the
+    contiguous statement range [statement containing <from> .. statement containing <to>] of the located fn, verbatim, under
+    the given (hand-written, reported) header.  Everything else of the fn is DROPPED (recorded in the evidence as `slice`)."""
+    he = fn_header_end(item)
+    bc = match_close(item, he)
+    ci = [i for i in code_idx(item) if he < i < bc]
+    texts = [item[i].text for i in ci]
+    def find(needle):
+        pat = sig(lex(needle))
+        hits = [k for k in range(len(texts) - len(pat) + 1) if texts[k:k + len(pat)] == pat]
+        if len(hits) != 1:
+            raise ExtractError(f"lost anchor: slice anchor {needle!r} matches {len(hits)} times")
+        return stmt_bounds(item, ci[hits[0]])
+    a, _ = find(opts["from"])
+    _, b = find(opts["to"])
+    if b < a:
+        raise ExtractError("lost anchor: slice end precedes slice start")
+    fired["slice"] = 1
+    return synth(opts["header"] + " {\n        ") + item[a:b + 1] + synth("\n}")
 
 
 def render_trait(item, opts, sections, rules, fired):
